@@ -55,6 +55,13 @@ class Context:
         self.fields_and_fragments = fields_and_fragments
         self.compared_fragment_pairs = compared_fragment_pairs
         self.fragments = fragments
+        # (field map, fragment name, mutually exclusive) triples already (or
+        # being) compared by `_conflicts_between_fields_and_fragment`. Field
+        # maps are identified by `id`: they are kept alive by the
+        # `fields_and_fragments` cache for the lifetime of the context.
+        self.compared_fields_and_fragment = (
+            set()
+        )  # type: Set[Tuple[int, str, bool]]
 
 
 def _permutations(lst: Sequence[T]) -> Iterator[Tuple[T, T]]:
@@ -420,6 +427,16 @@ def _conflicts_between_fields_and_fragment(
     fragment_def = ctx.fragments.get(fragment_name)
     if not fragment_def:
         return
+
+    # Memoize so a collection of fields is not compared with the same fragment
+    # more than once: sub-selections are compared starting from an empty
+    # `compared_fragments` set, so without this a fragment spread (directly or
+    # not) below one of its own fields is compared with the same fields again
+    # and again (unbounded recursion on cyclic fragments).
+    key = (id(field_map), fragment_name, mutually_exclusive)
+    if key in ctx.compared_fields_and_fragment:
+        return
+    ctx.compared_fields_and_fragment.add(key)
 
     ff = _referenced_fields_and_fragments(ctx, fragment_def)
     fragment_field_map, fragment_fragment_names = ff
